@@ -218,6 +218,80 @@ def extended_cases(rng, n):
     return out
 
 
+# ---- the compound assignments `+= -= *= /= %=` are binary operators of the grammar (members of `bin_op`): their LEFT operand
+# (the variable's value; the index / key / call arguments of the path that names the slot, then the slot's value) comes
+# before the right operand, and is not disturbed by it.  Python oracle; next to the demanded output the oracle computes the
+# output of the one deviation on record ("the right operand is evaluated first", everything else as demanded) so that
+# any other wrong order / value is a different class.
+def _apply(op, a, b):
+    if op == "+=":
+        return a + b
+    if op == "-=":
+        return a - b
+    if op == "*=":
+        return a * b
+    q = abs(a) // abs(b) * (1 if (a < 0) == (b < 0) else -1)
+    return q if op == "/=" else a - q * b
+
+
+def opassign_cases(rng, n):
+    """-> (kind, form, source, demanded lines, lines of the recorded deviation)"""
+    out = []
+    forms = ["var-module", "var-local", "var-nested-rhs", "var-undisturbed", "index-order", "index-value", "index-nested", "map-order",
+             "field-order", "field-value"]
+    for i in range(n):
+        form = forms[i % len(forms)]
+        op = rng.choice(["+=", "-=", "*=", "/=", "%="])
+        A, D, K, J = rng.randint(20, 60), rng.randint(2, 9), rng.randint(1, 9), rng.randint(1, 9)
+        S = lambda v: str(v)
+        if form == "var-module":
+            src = "x = %d\nf = fn() -> int {\n  print %d\n  modify x = 100\n  return %d\n}\nx %s f()\nprint x\n" % (A, K, D, op)
+            out.append(("variable", form, src, [S(K), S(_apply(op, A, D))], [S(K), S(_apply(op, 100, D))]))
+        elif form == "var-local":
+            src = ("run = fn() -> int {\n  y = %d\n  g = fn() -> int {\n    print %d\n    modify y = 100\n    return %d\n  }\n  y %s g()\n  return y\n}\nprint run()\n"
+                   % (A, K, D, op))
+            out.append(("variable", form, src, [S(K), S(_apply(op, A, D))], [S(K), S(_apply(op, 100, D))]))
+        elif form == "var-nested-rhs":
+            src = "x = %d\nf = fn() -> int {\n  print %d\n  modify x = 100\n  return %d\n}\nx %s log(%d) + f()\nprint x\n" % (A, K, D, op, J)
+            out.append(("variable", form, src, [S(J), S(K), S(_apply(op, A, J + D))], [S(J), S(K), S(_apply(op, 100, J + D))]))
+        elif form == "var-undisturbed":
+            src = "x = %d\nx %s log(%d)\nprint x\nx %s x\nprint x\n" % (A, op, D, op)
+            v1 = _apply(op, A, D)
+            if v1 == 0 and op in ("/=", "%="):
+                src = "x = %d\nx %s log(%d)\nprint x\n" % (A, op, D)
+                out.append(("variable", form, src, [S(D), S(v1)], [S(D), S(v1)]))
+            else:
+                out.append(("variable", form, src, [S(D), S(v1), S(_apply(op, v1, v1))], [S(D), S(v1), S(_apply(op, v1, v1))]))
+        elif form == "index-order":
+            idx = rng.randint(0, 2)
+            vals = [A, A + 1, A + 2]
+            src = "l: [int...] = [%d, %d, %d]\nl[log(%d)] %s log(%d)\nprint l\n" % (vals[0], vals[1], vals[2], idx, op, D)
+            vals[idx] = _apply(op, vals[idx], D)
+            res = "[%d, %d, %d]" % tuple(vals)
+            out.append(("index", form, src, [S(idx), S(D), res], [S(D), S(idx), res]))
+        elif form == "index-value":
+            src = ("l: [int...] = [%d, 7]\nbumpl = fn() -> int {\n  print %d\n  l[0] = 100\n  return %d\n}\nl[0] %s bumpl()\nprint l\n" % (A, K, D, op))
+            out.append(("index", form, src, [S(K), "[%d, 7]" % _apply(op, A, D)], [S(K), "[%d, 7]" % _apply(op, 100, D)]))
+        elif form == "index-nested":
+            src = "ll: [[int...]...] = [[1, 2], [%d, %d]]\nll[log(1)][log(0)] %s log(%d)\nprint ll\n" % (A, A + 1, op, D)
+            res = "[[1, 2], [%d, %d]]" % (_apply(op, A, D), A + 1)
+            out.append(("index", form, src, ["1", "0", S(D), res], [S(D), "1", "0", res]))
+        elif form == "map-order":
+            src = ("mm = map[str, int] { \"a\": %d }\nkey = fn(n: int) -> str {\n  print n\n  return \"a\"\n}\nmm[key(%d)] %s log(%d)\nprint mm[\"a\"]\n" % (A, K + 10, op, D))
+            out.append(("index", form, src, [S(K + 10), S(D), S(_apply(op, A, D))], [S(D), S(K + 10), S(_apply(op, A, D))]))
+        else:
+            cls = ("class Inner {\n  d: int\n  constructor(self, d: int) {\n    self.d = d\n  }\n}\nclass Outer {\n  inner: Inner\n  constructor(self, d: int) {\n    self.inner = Inner(d)\n  }\n"
+                   "  fn pick(self, n: int) -> Inner {\n    print \"pick \" + n\n    return self.inner\n  }\n}\no = Outer(%d)\n" % A)
+            if form == "field-order":
+                src = cls + "o.pick(log(%d)).d %s log(%d)\nprint o.inner.d\n" % (K + 10, op, D)
+                res = S(_apply(op, A, D))
+                out.append(("field", form, src, [S(K + 10), "pick %d" % (K + 10), S(D), res], [S(D), S(K + 10), "pick %d" % (K + 10), res]))
+            else:
+                src = cls + "bumpo = fn() -> int {\n  print %d\n  o.inner.d = 100\n  return %d\n}\no.inner.d %s bumpo()\nprint o.inner.d\n" % (K, D, op)
+                out.append(("field", form, src, [S(K), S(_apply(op, A, D))], [S(K), S(_apply(op, 100, D))]))
+    return out
+
+
 def run(ctx):
     ok = core.coq_props(ctx, "Props/C15.v")
     binary = core.build_repo()
@@ -273,7 +347,27 @@ def run(ctx):
         if got != exp:
             ctx.report("order:extended", "evaluation order / once-only violated in: %s  expected %r got %r" % (src.strip(), exp, got),
                        {"program": pre + src, "expected": exp, "observed": got, "rc": rc})
-    ctx.cov["evaluations"] = st["programs"] * per + n_ext
+    ops = opassign_cases(ctx.rng, 60 if ctx.quick() else 600)
+    n_opa = 0
+    for (kind, form, src0, exp, dev), (src, _, rc, out, err) in zip(ops, programs.pmap(one, [(c[2], c[3]) for c in ops])):
+        if rc != 0 and "Did not compile" in (out + err):
+            ctx.report("generator-rejected", "a compound-assignment evaluation-order case is rejected by the compiler: %s" % (out + err)[-300:],
+                       {"program": pre + src}, found_input=False)
+            continue
+        n_opa += 1
+        got = out.split("\n")[:-1]
+        if rc == 0 and got == exp:
+            continue
+        if rc == 0 and got == dev:
+            ctx.report("order:opassign-right-operand-first:" + kind,
+                       "`a op= b` evaluates its right operand before its left operand (%s): %s  demanded %r got %r" % (form, src.strip().split("\n")[-2], exp, got),
+                       {"program": pre + src, "expected": exp, "observed": got, "rc": rc})
+        else:
+            ctx.report("order:opassign", "evaluation order / once-only violated by a compound assignment (%s): %s  demanded %r got %r (exit %d) %s"
+                       % (form, src.strip().split("\n")[-2], exp, got, rc, err[-200:].replace("\n", " ")),
+                       {"program": pre + src, "expected": exp, "observed": got, "rc": rc, "recorded_deviation": dev})
+    ctx.cov["opassign_cases"] = n_opa
+    ctx.cov["evaluations"] = st["programs"] * per + n_ext + n_opa
     ctx.cov["distinct_nontrivial"] = len(set(str(s) for s in shapes if s not in ('I', 'B0', 'B1')))
     ctx.cov["rule"] = ("expression trees whose leaves are calls to logging functions, %d per program; all shapes of depth <= %s over "
                        "{+,*,-, 2-arg call, 4-arg call, 0-arg call, recursion, &&, ||, !, <, ==}; non-trivial = distinct non-leaf shape; "
